@@ -16,6 +16,7 @@ RULE = (
     "evaluated on an x sample (log and linear spacing plus 1-10^-k) and must return finite real scalars; loc(x)-loc(x0) must equal "
     "-int_{x0}^{x} sing (own quadrature, rtol 1e-4 on int|sing|). Distinct = (family, module, class, order, nf); "
     "non-trivial = the RSL has a singular or local part (identity checked) or a regular part (finiteness checked on >= 10 points)."
+    " Every mass ratio is driven in two representations (Q2 varied at unit mass; the mass varied at a common Q2), so that state keyed by Q2 or by the mass alone shows."
 )
 ASSUMPTIONS = ["scipy.quad trusted", "Vogt-type parametrisations are accurate to ~1e-6 relative: rtol 1e-4 (calibrated: noise <= 2.1e-6, defects >= 5e-2)",
                "threshold-limited heavy kernels are evaluated on all of (0,1) (they return 0 beyond the partonic threshold)"]  # fmt: skip
